@@ -208,6 +208,8 @@ pub struct Observe {
     pub checksum: bool,
     /// vacuum / doctor errors are failures (C42 / C21); otherwise they end the history
     pub maint_must_succeed: bool,
+    /// vector index membership == active embedded frames — C14
+    pub vec: bool,
 }
 
 #[derive(Debug, Default, Clone)]
@@ -236,6 +238,8 @@ pub struct Stats {
     pub empty: u32,
     pub vacuums: u32,
     pub doctors: u32,
+    pub vec_checks: u32,
+    pub emb_killed: u32,
 }
 
 pub struct Exec {
@@ -550,6 +554,9 @@ impl Exec {
                     return Ok(false);
                 }
                 self.stats.updates += 1;
+                if self.model.docs[old].emb.is_some() {
+                    self.stats.emb_killed += 1;
+                }
                 let o = self.model.docs[old].clone();
                 let idx = self.model.docs.len();
                 let reused = new_payload.is_none();
@@ -603,6 +610,9 @@ impl Exec {
                     return Ok(false);
                 }
                 self.stats.deletes += 1;
+                if self.model.docs[d].emb.is_some() {
+                    self.stats.emb_killed += 1;
+                }
                 self.model.pending.push(POp::Tomb(d));
                 // a delete never changes frame_count; detect an auto checkpoint through status
                 let _ = pre;
@@ -971,7 +981,74 @@ impl Exec {
                 }
             }
         }
+        if self.obs.vec && deep {
+            self.check_vec(m)?;
+        }
         self.model.frames_total = n as u64;
+        Ok(())
+    }
+
+    /// C14: the frames findable by vector search are exactly the active frames that were given
+    /// an embedding, each with the embedding it was given.
+    fn check_vec(&mut self, m: usize) -> Result<(), Fail> {
+        let expected: BTreeMap<u64, Vec<f32>> = (0..m)
+            .filter(|&d| self.model.docs[d].status == MStatus::Active)
+            .filter_map(|d| self.model.docs[d].emb.clone().map(|e| (self.model.docs[d].frame_id.unwrap(), e)))
+            .collect();
+        let ever = self.model.docs.iter().any(|d| d.emb.is_some());
+        if !ever {
+            return Ok(());
+        }
+        self.stats.vec_checks += 1;
+        let total = self.mem().frame_count() + 8;
+        let q = vec![0.25f32; self.dim];
+        let hits = match self.mem().search_vec(&q, total) {
+            Ok(h) => h,
+            Err(e) => {
+                if expected.is_empty() {
+                    return Ok(());
+                }
+                return Err(Fail::new(self.key("vec-search-failed"), format!("search_vec failed with {} active embedded frames: {e}", expected.len())));
+            }
+        };
+        let got: std::collections::BTreeSet<u64> = hits.iter().map(|h| h.frame_id).collect();
+        let want: std::collections::BTreeSet<u64> = expected.keys().copied().collect();
+        if got != want {
+            let missing: Vec<u64> = want.difference(&got).copied().collect();
+            let extra: Vec<u64> = got.difference(&want).copied().collect();
+            return Err(Fail::new(
+                self.key(if !missing.is_empty() { "vec-member-missing" } else { "vec-member-extra" }),
+                format!("vector search over everything returns frames {:?}; active embedded frames are {:?} (missing {:?}, extra {:?})", got, want, missing, extra),
+            ));
+        }
+        if hits.len() != got.len() {
+            return Err(Fail::new(self.key("vec-duplicate"), format!("vector search returned {} hits for {} distinct frames", hits.len(), got.len())));
+        }
+        for (id, emb) in &expected {
+            match self.mem().frame_embedding(*id) {
+                Ok(Some(e)) if e == *emb => {}
+                other => {
+                    return Err(Fail::new(
+                        self.key("vec-embedding-differs"),
+                        format!("frame_embedding({id}) = {:?}, the frame was given {:?}", other.map(|o| o.map(|v| v.len())).map_err(|e| e.to_string()), emb),
+                    ))
+                }
+            }
+            // the frame is its own nearest neighbour
+            let near = self.mem().search_vec(emb, total).map_err(|e| Fail::new(self.key("vec-search-failed"), e.to_string()))?;
+            let d = near.iter().find(|h| h.frame_id == *id).map(|h| h.distance);
+            if !matches!(d, Some(d) if d.abs() <= 1e-4) {
+                return Err(Fail::new(self.key("vec-self-distance"), format!("frame {id} queried with its own embedding is found at distance {:?}", d)));
+            }
+        }
+        match self.mem().stats() {
+            Ok(st) => {
+                if st.vector_count != expected.len() as u64 {
+                    return Err(Fail::new(self.key("vec-count"), format!("stats().vector_count = {} but {} active embedded frames exist", st.vector_count, expected.len())));
+                }
+            }
+            Err(e) => return Err(Fail::new(self.key("stats-failed"), e.to_string())),
+        }
         Ok(())
     }
 
